@@ -136,3 +136,10 @@ def run(ctx: Ctx):
                     ctx.violation("failing-input", "analytical", dict(u=[str(c) for c in cu], v=[str(c) for c in cv], dt=dt, s=str(s), point=pts[k]),
                                   dict(helper=name, implementation=[float(np.atleast_1d(g[0])[k]), float(np.atleast_1d(g[1])[k])], model=[mu, mv],
                                        theorem="Ladim.C01.gv*_is_rk"), tags=dict(first=name))
+
+    # ---- whole simulations: the stage velocities come from the real forcing (time-dependent, frames several steps apart)
+    from harness import scen
+    ne = 30 if ctx.thorough else 9
+    ecases = [scen.gen(ctx.seed * 100000 + 1500 + k, scheme=["RK4", "RK2", "EF"][k % 3], rev=bool(k % 4 == 3), layout="sparse", kills=False,
+                       land=False, speed=[0.25, 1.0][k % 2], continuous=False) for k in range(ne)]
+    scen.e2e_stream(ctx, "whole-run", ecases, "Ladim.C01.advect_EF/RK2/RK4 with the velocity of Ladim.Simulation.velocity_seen at the stage times")
